@@ -551,24 +551,29 @@ def parseEnd (a : Ascii) (sq : Sq) : Ascii × Sq × Status :=
 /-- the `do { seebuf; [GrowTo; addbuf;] L += n; eoff = …; if EOD break; } while (loadbuf == OK)` loop shared (as three
     textual copies) by `sqascii_Read`, `ReadSequence` (`store = true`) and `ReadInfo` (`store = false`).
     Returns the final status (`.eod`, `.eof`, `.eformat`, `.fault`) and `epos`. -/
+def scanStep (store : Bool) (a : Ascii) (sq : Sq) : Ascii × Sq × Status × Nat × Bool :=
+  -- one pass of the loop body; the last component says whether `loadbuf` returned `eslOK` (go round again)
+  let (a, see) := seebuf a none
+  if see.st == .fault then (a, sq, .fault, see.endpos, false) else
+  if see.st == .eformat && store then (a, sq, .eformat, see.endpos, false) else
+  let (a, sq, stA) :=
+    if store then
+      let sq := sq.growTo (sq.n + see.nres)
+      addbuf a sq see.nres
+    else (a, sq, Status.ok)
+  if stA == .fault then (a, sq, .fault, see.endpos, false) else
+  let a := { a with L := a.L + see.nres }
+  let sq := { sq with eoff := a.boff + see.endpos - 1 }
+  if see.st == .eformat then (a, sq, .eformat, see.endpos, false) else
+  if see.st == .eod then (a, sq, .eod, see.endpos, false) else
+  let (a, st) := loadbuf a
+  (a, sq, st, see.endpos, st == .ok)
+
 def scanLoop (store : Bool) : Nat → Ascii → Sq → Ascii × Sq × Status × Nat
   | 0, a, sq => (a, sq, .fault, 0)
   | fuel + 1, a, sq =>
-    let (a, see) := seebuf a none
-    if see.st == .fault then (a, sq, .fault, see.endpos) else
-    if see.st == .eformat && store then (a, sq, .eformat, see.endpos) else
-    let (a, sq, stA) :=
-      if store then
-        let sq := sq.growTo (sq.n + see.nres)
-        addbuf a sq see.nres
-      else (a, sq, Status.ok)
-    if stA == .fault then (a, sq, .fault, see.endpos) else
-    let a := { a with L := a.L + see.nres }
-    let sq := { sq with eoff := a.boff + see.endpos - 1 }
-    if see.st == .eformat then (a, sq, .eformat, see.endpos) else
-    if see.st == .eod then (a, sq, .eod, see.endpos) else
-    let (a, st) := loadbuf a
-    if st == .ok then scanLoop store fuel a sq else (a, sq, st, see.endpos)
+    let r := scanStep store a sq
+    if r.2.2.2.2 then scanLoop store fuel r.1 r.2.1 else (r.1, r.2.1, r.2.2.1, r.2.2.2.1)
 
 /-- coordinates of a complete sequence -/
 def Sq.setWhole (sq : Sq) : Sq :=
